@@ -18,6 +18,12 @@ GeffProps.C12.  Four case kinds:
   dispatch_store   the same grid THROUGH THE READER: geffs written with the raw writer to a MemoryStore (path, one edge,
                    edgeless, single node, empty, edge-only x invalid data per validator), read back under all 32 configs
                    with read_to_memory(data_validation=...) and geff.read(..., backend="networkx"), against the oracle;
+  reader_decl      every DECLARATION subset of {sphere, ellipsoid, tracklet, lineage} x which node properties are loaded
+                   (all / only the declared ones / all but one declared property) x invalid data per declared validator,
+                   through read_to_memory and geff.read per backend (zarr formats 2 and 3, 1-3 space axes); the metadata
+                   returned by the reader is compared with the stored one for the loaded properties.  A validator that
+                   is enabled and declared but whose property was NOT loaded makes today's reader raise KeyError: this is
+                   classified (evidence key reader_declared_but_not_loaded), accepted, and may also be a clean skip;
   history          sequences of validate_data calls on ONE in-memory geff object (config / directedness vary) with a
                    byte snapshot of every array around each call (a validator must not modify its input, a verdict must
                    not depend on earlier calls), on plain / read-only / non-contiguous / Fortran / big-endian arrays;
@@ -731,23 +737,26 @@ GRAPH_SHAPES = {
 ALWAYS_BAD = {"edge-only": ["graph"]}
 
 
-def dispatch_data(shape, bad):
-    """node ids, edges and the four property arrays; `bad` = validators whose data is invalid"""
+def dispatch_data(shape, bad, d=2):
+    """node ids, edges and the four property arrays; `bad` = validators whose data is invalid; d = space axes"""
     n, edges, _ = GRAPH_SHAPES[shape]
     edges = [list(e) for e in edges]
     if "graph" in bad and edges and shape != "edge-only":
         edges.append(list(edges[0]))            # repeated edge (collapses in networkx: tracks unaffected)
     if n == 0:   # no entry can be wrong: invalid = wrong rank / wrong matrix extent
         r = np.zeros((0, 2)) if "sphere" in bad else np.zeros((0,))
-        cov = np.zeros((0, 3, 3)) if "ellipsoid" in bad else np.zeros((0, 2, 2))
+        cov = np.zeros((0, d + 1, d + 1)) if "ellipsoid" in bad else np.zeros((0, d, d))
         trk = lin = np.zeros((0,), dtype=np.int64)
     else:
         r = np.array([1.0 + k for k in range(n)])
         if "sphere" in bad:
             r[n - 1] = -1.0
-        cov = np.stack([np.array([[2.0, 0.0], [0.0, 2.0]])] * n)
+        cov = np.stack([2.0 * np.eye(d)] * n)
         if "ellipsoid" in bad:
-            cov[0, 1, 0] = 1.0
+            if d > 1:
+                cov[0, d - 1, 0] = 1.0      # not symmetric
+            else:
+                cov[0, 0, 0] = -1.0         # not positive-definite
         good_trk = {"path": [5, 5, 5, 6], "one-edge": [5, 5], "edgeless": [5, 6, 7, 8], "single-node": [5]}[shape]
         bad_trk = {"path": [5, 5, 6, 6], "one-edge": [5, 6], "edgeless": [5, 5, 7, 8], "single-node": [5]}[shape]
         good_lin = {"path": [1, 1, 1, 2], "one-edge": [1, 1], "edgeless": [1, 2, 3, 4], "single-node": [1]}[shape]
@@ -869,17 +878,17 @@ STORE_DECLS = [{"sphere": True, "ellipsoid": True, "track": ["tracklet", "lineag
 ALL_CONFIGS = [list(c) for c in itertools.product([False, True], repeat=5)]
 
 
-def _dispatch_geff(shape, bad, decl, variant="plain", directed=True):
-    """in-memory geff of the dispatch grid (axis properties a0..a2 included so that it can be stored)"""
-    ids, edges, arrs = dispatch_data(shape, set(bad))
+def _dispatch_geff(shape, bad, decl, variant="plain", directed=True, d=2):
+    """in-memory geff of the dispatch grid (axis properties a0..a<d> included so that it can be stored)"""
+    ids, edges, arrs = dispatch_data(shape, set(bad), d)
     n = len(ids)
-    for a in ("a0", "a1", "a2"):
+    axn = [f"a{i}" for i in range(d + 1)]
+    for a in axn:
         arrs[a] = np.zeros(n)
     track = None if decl["track"] is None else {k: {"tracklet": "trk", "lineage": "lin"}[k] for k in decl["track"]}
-    md = _meta(directed=directed, axes=["time", "space", "space"], sphere="r" if decl["sphere"] else None,
+    md = _meta(directed=directed, axes=["time"] + ["space"] * d, sphere="r" if decl["sphere"] else None,
                ellipsoid="cov" if decl["ellipsoid"] else None, track=track,
-               props=[("r", "float64"), ("cov", "float64"), ("trk", "int64"), ("lin", "int64"),
-                      ("a0", "float64"), ("a1", "float64"), ("a2", "float64")])
+               props=[("r", "float64"), ("cov", "float64"), ("trk", "int64"), ("lin", "int64")] + [(a, "float64") for a in axn])
     return {"metadata": md, "node_ids": variant_array(ids, variant), "edge_ids": variant_array(edges, variant),
             "node_props": {k: {"values": variant_array(v, variant), "missing": None} for k, v in arrs.items()},
             "edge_props": {}}
@@ -954,6 +963,178 @@ def judge_dispatch_store(ck, c, im):
                 ck.fail("C12:reader-rejects-valid", f"{how}(data_validation=...) raised {r.get('msg')!r} on valid data", rc, r, None)
         elif want_fail is not None and r.get("call") != want_fail:
             ck.fail("C12:reader-dispatch-wrong-error", f"{how}: error comes from {r.get('call')}, expected {want_fail}", rc, r, want_fail)
+
+
+# ======================================================================= reader: declaration subsets x loaded properties
+PROP_OF = {"sphere": "r", "ellipsoid": "cov", "tracklet": "trk", "lineage": "lin"}
+ORDER = ["graph", "sphere", "ellipsoid", "tracklet", "lineage"]
+
+
+def reader_decl_of(c):
+    dset = c["declared"]
+    tr = [k for k in ("tracklet", "lineage") if k in dset]
+    return {"sphere": "sphere" in dset, "ellipsoid": "ellipsoid" in dset, "track": tr or None}
+
+
+def reader_reads(c):
+    """(load option, node_props argument, config) for every read of the case"""
+    dset = c["declared"]
+    axn = [f"a{i}" for i in range(c["d"] + 1)]
+    allp = ["r", "cov", "trk", "lin"] + axn
+    loads = [("all", None), ("declared-only", [PROP_OF[v] for v in dset])]
+    loads += [(f"exclude:{v}", [p for p in allp if p != PROP_OF[v]]) for v in dset]
+    cfgs = [[True] * 5] + [[f == v for f in FLAGS] for v in dset]
+    if c.get("reads") is not None:
+        return [(lo, dict(loads)[lo], cfg) for lo, cfg in c["reads"]]
+    return [(lo, arg, cfg) for lo, arg in loads for cfg in cfgs]
+
+
+def impl_reader_decl(c):
+    """one store per (declaration subset, invalid-data set, d, zarr format); read back with every choice of
+    loaded node properties x configs through read_to_memory, and through geff.read for each backend"""
+    import geff
+    import zarr
+    from geff.core_io import write_arrays
+    from geff.core_io._base_read import read_to_memory
+    from geff.validate.data import ValidationConfig
+
+    g = _dispatch_geff("path", c["bad"], reader_decl_of(c), d=c["d"])
+    st = zarr.storage.MemoryStore()
+    try:
+        write_arrays(st, g["node_ids"], g["node_props"], g["edge_ids"], {}, g["metadata"], structure_validation=False,
+                     zarr_format=c["zarr_format"])
+    except Exception as ex:  # noqa: BLE001
+        return {"write_failed": type(ex).__name__ + ": " + str(ex)[:200]}
+    stored = g["metadata"]
+    out = {"reads": [], "backends": {}, "stored": {"sphere": stored.sphere, "ellipsoid": stored.ellipsoid,
+                                                    "track": stored.track_node_props}}
+    metas = {}
+    for lo, arg, cfg in reader_reads(c):
+        vc = ValidationConfig(**dict(zip(FLAGS, cfg)))
+        r = _classify(_outcome(lambda arg=arg, vc=vc: read_to_memory(st, structure_validation=False, node_props=arg, data_validation=vc)))
+        # the metadata the reader returns for this choice of loaded properties (no validation; once per choice)
+        if lo not in metas:
+            try:
+                m = read_to_memory(st, structure_validation=False, node_props=arg)
+                metas[lo] = {"sphere": m["metadata"].sphere, "ellipsoid": m["metadata"].ellipsoid,
+                             "track": m["metadata"].track_node_props, "loaded": sorted(m["node_props"])}
+            except Exception as ex:  # noqa: BLE001
+                metas[lo] = {"exc": type(ex).__name__}
+        r["meta"] = metas[lo]
+        out["reads"].append(r)
+    if c.get("reads") is None:
+        for be in ("networkx", "rustworkx", "spatial-graph"):
+            kw = {"position_attr": "pos"} if be == "spatial-graph" else {}
+            vc = ValidationConfig(**dict(zip(FLAGS, [True] * 5)))
+            out["backends"][be] = _classify(_outcome(
+                lambda be=be, kw=kw, vc=vc: geff.read(st, structure_validation=False, data_validation=vc, backend=be, **kw)))
+    return out
+
+
+def reader_decl_cases(full):
+    subsets = [[v for i, v in enumerate(["sphere", "ellipsoid", "tracklet", "lineage"]) if k >> i & 1] for k in range(16)]
+    for fmt, d in ([(2, 2)] if not full else [(2, 1), (2, 2), (2, 3), (3, 1), (3, 2), (3, 3)]):
+        for dset in subsets:
+            for bad in [[]] + [[v] for v in dset] + ([list(dset)] if full and len(dset) > 1 else []):
+                yield {"kind": "reader_decl", "declared": dset, "bad": bad, "d": d, "zarr_format": fmt}
+    if not full:   # the other format and 1 / 3 space axes: every declaration subset holding an ellipsoid or a sphere
+        for fmt, d in [(3, 1), (3, 3), (2, 1), (2, 3), (3, 2)]:
+            for dset in subsets:
+                if "ellipsoid" in dset or dset == ["sphere"]:
+                    v = "ellipsoid" if "ellipsoid" in dset else "sphere"
+                    yield {"kind": "reader_decl", "declared": dset, "bad": [v], "d": d, "zarr_format": fmt,
+                           "reads": [["all", [True] * 5], ["all", [f == v for f in FLAGS]], ["declared-only", [f == v for f in FLAGS]]]}
+
+
+def reader_expected(c, lo, arg, cfg):
+    """(outcome the property demands given what was loaded, may-KeyError)
+    A validator counts when it is enabled, declared and its property was loaded; a validator that is enabled and
+    declared but whose property was NOT loaded makes today's reader raise KeyError (classified, accepted) - it may
+    also be skipped, but nothing else."""
+    dset = c["declared"]
+    loaded = lambda v: arg is None or PROP_OF[v] in arg  # noqa: E731
+    cfgd = dict(zip(FLAGS, cfg))
+    want, keyerr = None, False
+    for v in ORDER:
+        if not cfgd[v]:
+            continue
+        if v == "graph":
+            if "graph" in c["bad"]:
+                want = CALLS[3]
+                break
+            continue
+        if v not in dset:
+            continue
+        if not loaded(v):
+            keyerr = True          # from here on a KeyError is what today's reader does
+            continue
+        if v in c["bad"]:
+            want = VALIDATOR_OF_FLAG[v]
+            break
+    return want, keyerr
+
+
+def judge_reader_decl(ck, c, im):
+    if "write_failed" in im:
+        ck.case(c, "reader_decl:write-failed", nontrivial=False)
+        ck.extra.setdefault("reader_decl_write_failed", []).append(im["write_failed"])
+        return
+    stored = im["stored"]
+    hist = ck.extra.setdefault("reader_declared_but_not_loaded", {})
+    for (lo, arg, cfg), r in zip(reader_reads(c), im["reads"]):
+        want, keyerr = reader_expected(c, lo, arg, cfg)
+        rc = {**c, "reads": [[lo, list(cfg)]]}
+        tag_lo = lo.split(":")[0]
+        ck.case({**rc}, f"reader_decl:declared={len(c['declared'])}:load={tag_lo}:{'raises' if want else 'ok'}" + (":maybe-KeyError" if keyerr else ""),
+                nontrivial=True)
+        got = None if r["o"] == "ok" else (r.get("call") if r["o"] == "ValueError" else r["o"])
+        if keyerr and r["o"] == "KeyError":
+            hist["KeyError"] = hist.get("KeyError", 0) + 1
+        elif got != want:
+            if r["o"] == "ok":
+                ck.fail("C12:reader-drops-declared-validator",
+                        f"read_to_memory(node_props={arg}, data_validation={dict(zip(FLAGS, cfg))}) on a geff declaring {c['declared']} accepts data "
+                        f"that {want} must reject (the property is declared and loaded)", rc, r, want)
+            elif want is None:
+                ck.fail("C12:reader-decl-rejects-valid", f"read_to_memory(node_props={arg}, ...) raised {r['o']}: {r.get('msg', '')!r} on valid data", rc, r, None)
+            else:
+                ck.fail("C12:reader-decl-wrong-error", f"read_to_memory(node_props={arg}, ...): got {got}, expected {want}", rc, r, want)
+        elif keyerr:
+            hist["skipped"] = hist.get("skipped", 0) + 1
+        # metadata returned by the reader: the declaration of every LOADED property must survive unchanged,
+        # and nothing may be declared that the store does not declare
+        m = r["meta"]
+        if "exc" in m:
+            ck.fail("C12:reader-decl-exception", f"read_to_memory(node_props={arg}) raised {m['exc']}", rc, m, "metadata")
+            continue
+        problems = []
+        for fld in ("sphere", "ellipsoid"):
+            if m[fld] not in (stored[fld], None):
+                problems.append(f"{fld}={m[fld]!r} invented (stored {stored[fld]!r})")
+            if stored[fld] is not None and stored[fld] in m["loaded"] and m[fld] != stored[fld]:
+                problems.append(f"{fld} declaration {stored[fld]!r} dropped although the property was loaded")
+        st_tr, m_tr = stored["track"] or {}, m["track"] or {}
+        for k, p in st_tr.items():
+            if p in m["loaded"] and m_tr.get(k) != p:
+                problems.append(f"track_node_props[{k!r}]={p!r} dropped although the property was loaded")
+        for k, p in m_tr.items():
+            if st_tr.get(k) != p:
+                problems.append(f"track_node_props[{k!r}]={p!r} invented")
+        if problems:
+            ck.fail("C12:reader-metadata-declaration-lost", f"read_to_memory(node_props={arg}) returns metadata that differs from the stored one: "
+                    + "; ".join(problems), rc, m, stored)
+    want_all, _ = reader_expected(c, "all", None, [True] * 5)
+    for be, r in im.get("backends", {}).items():
+        ck.case({**c, "backend": be}, f"reader_decl:geff.read:{be}:{'raises' if want_all else 'ok'}", nontrivial=True)
+        got = None if r["o"] == "ok" else (r.get("call") if r["o"] == "ValueError" else r["o"])
+        if want_all is not None and got != want_all:
+            ck.fail("C12:reader-drops-declared-validator", f"geff.read(backend={be!r}, data_validation=all on) gave {got}, expected the error of {want_all}",
+                    {**c, "backend": be}, r, want_all)
+        elif want_all is None and r["o"] == "ValueError" and r.get("call") is not None:
+            ck.fail("C12:reader-decl-rejects-valid", f"geff.read(backend={be!r}) raised a validator error on valid data: {r.get('msg')!r}", {**c, "backend": be}, r, None)
+        elif want_all is None and r["o"] != "ok":
+            bh = ck.extra.setdefault("backend_construction_errors_after_validation", {})
+            bh[f"{be}:{r['o']}"] = bh.get(f"{be}:{r['o']}", 0) + 1
 
 
 # ======================================================================= histories on one in-memory geff; array variants
@@ -1173,7 +1354,7 @@ def judge_lineage(ck, c, im, mo):
 # ======================================================================= the check
 IMPL = {"graph": impl_graph, "sphere": impl_sphere, "ellipsoid_shape": impl_ell_shape,
         "ellipsoid_float": impl_ell_float, "dispatch": impl_dispatch, "lineage_masked": impl_lineage,
-        "dispatch_store": impl_dispatch_store, "history": impl_history}
+        "dispatch_store": impl_dispatch_store, "history": impl_history, "reader_decl": impl_reader_decl}
 
 
 def impl_obs(c):
@@ -1249,7 +1430,7 @@ def run(ck: common.Check):
     cases.extend(dispatch_cases(full=not ck.quick))
     cases.extend(lineage_cases(ck.rng, 3, 1500 if ck.quick else 20000))
     cases.extend(history_cases(ck.rng, 600 if ck.quick else 8000, 600 if ck.quick else 8000))
-    store_cases = list(dispatch_store_cases(full=not ck.quick))
+    store_cases = list(dispatch_store_cases(full=not ck.quick)) + list(reader_decl_cases(full=not ck.quick))
     ck.extra["corpus_cases"] = n_corpus
     ck.extra["graph_exhaustive_cases"] = n_exh
 
@@ -1284,11 +1465,16 @@ def run(ck: common.Check):
             judge_history(ck, c, im)
         elif k == "dispatch_store":
             judge_dispatch_store(ck, c, im)
+        elif k == "reader_decl":
+            judge_reader_decl(ck, c, im)
     # the dispatch grid through stores and the reader (one store per case, read under all 32 configs)
-    for c, im in zip(store_cases, common.pmap(impl_dispatch_store, store_cases, chunksize=1) if len(store_cases) >= 64
-                     else [impl_dispatch_store(c) for c in store_cases]):
-        per_kind["dispatch_store"] = per_kind.get("dispatch_store", 0) + 1
-        judge_dispatch_store(ck, c, im)
+    for c, im in zip(store_cases, common.pmap(impl_obs, store_cases, chunksize=1) if len(store_cases) >= 64
+                     else [impl_obs(c) for c in store_cases]):
+        per_kind[c["kind"]] = per_kind.get(c["kind"], 0) + 1
+        if c["kind"] == "dispatch_store":
+            judge_dispatch_store(ck, c, im)
+        else:
+            judge_reader_decl(ck, c, im)
     ck.extra["cases_per_kind"] = per_kind
     # a sample of the graph cases through a store and read_to_memory(data_validation=graph)
     gs = [c for c in cases if c["kind"] == "graph" and c["ids"]]
@@ -1362,6 +1548,8 @@ def replay(rp):
         judge_history(r, c, im)
     elif k == "dispatch_store":
         judge_dispatch_store(r, c, im)
+    elif k == "reader_decl":
+        judge_reader_decl(r, c, im)
     print(json.dumps({"case": c, "impl": im, "failures": r.f}, default=str))
     print("REPLAY: property holds on this input" if not r.f else "REPLAY: property FAILS on this input")
     return 0 if not r.f else 1
